@@ -415,6 +415,32 @@ func (n *simNet) releaseAll(keep func(from, to string) bool) int {
 	return total
 }
 
+// releaseAllExcept releases everything pending except on one connection.
+func (n *simNet) releaseAllExcept(cfrom, cto string, seq int) int {
+	n.mu.Lock()
+	defer n.mu.Unlock()
+	total := 0
+	for _, c := range n.conns {
+		if c.from == cfrom && c.to == cto && c.seq == seq {
+			continue
+		}
+		for d, h := range c.h {
+			if len(h.pending) == 0 {
+				continue
+			}
+			from, to := c.from, c.to
+			if d == 1 {
+				from, to = to, from
+			}
+			if n.blocked[[2]string{from, to}] {
+				continue
+			}
+			total += n.releaseLocked(h, len(h.pending))
+		}
+	}
+	return total
+}
+
 func (n *simNet) connLocked(from, to string, seq int) *simConn {
 	for _, c := range n.conns {
 		if c.seq == seq && c.from == from && c.to == to {
